@@ -130,6 +130,7 @@ theorem fsampleRaw_decl :
   have t2 : declTy "Byte".toList = "B".toList := by decide
   simp only [fsampleRaw, declDs, declL, declT, declBase, n1, n2, n3, n4, t1, t2, Bool.false_eq_true, if_false,
     List.map_cons, List.map_nil, List.filterMap_cons, List.filterMap_nil]
+  rfl
 
 /-! ### a pydap-style sample inside the domain of `parse_print` (non-vacuity) -/
 
